@@ -58,6 +58,9 @@ pub struct Step {
     /// +/- form whose data register lies inside the address register: the transferred value /
     /// final register are ambiguous, only the accessed location and the cycle mix are defined
     pub overlap: bool,
+    /// executed with bit 0 of PC set: an implementation may refuse this (error) - judged only when
+    /// the emulator does execute the instruction
+    pub odd_pc: bool,
     /// name used in place of the instruction form for actions that are not instructions
     pub label: Option<&'static str>,
 }
@@ -319,10 +322,12 @@ fn addr_reg(o: Opd) -> Option<u8> {
 /// Execute one instruction of the reference model at r.pc.
 pub fn step(r: &mut Regs, mem: &mut Mem) -> Step {
     let pc0 = r.pc;
-    let (w, avail) = fetch_words(mem, pc0);
-    let mut st = Step { insn: Insn::undef(), outcome: Outcome::Unjudged("?"), ccr_unjudged: 0, mem_unjudged: vec![], ea: None, reg_unjudged: 0, overlap: false, label: None };
-    if pc0 & 1 != 0 || pc0 > AM {
-        st.outcome = Outcome::Unjudged("odd or out-of-range pc");
+    // the least significant bit of PC takes no part in instruction fetch (instructions are fetched
+    // by word from even addresses); it is carried along when PC advances
+    let (w, avail) = fetch_words(mem, pc0 & !1);
+    let mut st = Step { insn: Insn::undef(), outcome: Outcome::Unjudged("?"), ccr_unjudged: 0, mem_unjudged: vec![], ea: None, reg_unjudged: 0, overlap: false, odd_pc: pc0 & 1 != 0, label: None };
+    if pc0 > AM {
+        st.outcome = Outcome::Unjudged("out-of-range pc");
         return st;
     }
     if avail == 0 {
@@ -347,6 +352,11 @@ pub fn step(r: &mut Regs, mem: &mut Mem) -> Step {
             return st;
         }
         Class::Impl => {}
+    }
+    if st.odd_pc && matches!(insn.mn, Mn::Bcc | Mn::Bsr | Mn::Jmp | Mn::Jsr | Mn::Rts | Mn::Rte | Mn::Trapa) {
+        // targets and return addresses derived from an odd PC: not defined by the properties
+        st.outcome = Outcome::Unjudged("control transfer at odd pc");
+        return st;
     }
     if (insn.len as usize + 1) / 2 > avail {
         st.outcome = Outcome::Err("instruction fetch outside mapped memory");
